@@ -300,18 +300,21 @@ func (da *DistributedAllocator) Release(ctx context.Context, subscriberID string
 	da.mu.Lock()
 	defer da.mu.Unlock()
 
-	// Release from appropriate allocator
-	if da.mode == PoolModeLease {
-		if err := da.epochAllocator.Release(ctx, subscriberID); err != nil {
-			return err
-		}
-	} else {
-		if err := da.allocator.Release(subscriberID); err != nil {
-			return err
-		}
+	// Nothing to do (and nothing to delete) for a subscriber that holds no allocation
+	if da.mode != PoolModeLease && da.allocator.Lookup(subscriberID) == nil {
+		return da.allocator.Release(subscriberID) // reports ErrNotAllocated
 	}
 
-	return da.deleteAllocation(ctx, subscriberID)
+	// Remove the record from the store first: if that fails, memory and store still agree
+	if err := da.deleteAllocation(ctx, subscriberID); err != nil {
+		return err
+	}
+
+	// Release from appropriate allocator
+	if da.mode == PoolModeLease {
+		return da.epochAllocator.Release(ctx, subscriberID)
+	}
+	return da.allocator.Release(subscriberID)
 }
 
 // Get returns the allocation for a subscriber.
